@@ -61,6 +61,15 @@ def gen_config(rng, force=False):
         if kw.get("kin_scaling_param_list") not in (None, ["a_ani"]):
             for k in ("kin_scaling_param_list", "j_kin_scaling_param_axes", "j_kin_scaling_grid_list"):
                 kw.pop(k, None)
+        if "j_kin_scaling_param_axes" in kw and rng.random() < 0.3:
+            # scaling axis listed in DESCENDING order (grid flipped consistently): a legitimate input, same function
+            ax = kw["j_kin_scaling_param_axes"]
+            if isinstance(ax, list):
+                kw["j_kin_scaling_param_axes"] = [np.asarray(a)[::-1].copy() for a in ax]
+                kw["j_kin_scaling_grid_list"] = [np.flip(np.asarray(g)).copy() for g in kw["j_kin_scaling_grid_list"]]
+            else:
+                kw["j_kin_scaling_param_axes"] = np.asarray(ax)[::-1].copy()
+                kw["j_kin_scaling_grid_list"] = [np.asarray(g)[::-1].copy() for g in kw["j_kin_scaling_grid_list"]]
         lenses.append((kw, lt, data))
     has_grid = any("kin_scaling_param_list" in kw for kw, _, _ in lenses)
     has_kin = any(lt in lc.KIN_TYPES for _, lt, _ in lenses)
